@@ -278,6 +278,7 @@ func main() {
 	out := filepath.Join(gen, "Tables.v")
 	writeLocks(repo, filepath.Join(gen, "Locks.v"))
 	writeCopies(repo, filepath.Join(gen, "Copies.v"))
+	writeFuncs(repo, filepath.Join(gen, "Funcs.v"))
 	lang := filepath.Join(repo, "interpreter", "language")
 
 	var b strings.Builder
